@@ -83,6 +83,8 @@ def run(res, tier, seed, driver_ok):
             'quat7a': ('ctor7a', list(p) + [-x for x in quat_of(w)]),      # q and -q are the same rotation
             'matrix': ('ctorTM', T),
             'pair': ('ctorPair', list(p), list(w)),
+            'pair_rpy': ('ctorPair', list(p), [r_, p_, y_]),               # [position, rotation] pair with the roll-pitch-yaw flag
+            'pair_arr': ('ctorPair', list(p), list(w)),                    # the same pair given as two arrays
         }
         st = tmh.Store()
         lines.append('tm.reset'); expect.append(None)
@@ -90,6 +92,12 @@ def run(res, tier, seed, driver_ok):
             try:
                 if name == 'pair':
                     st.objs.append(tm([list(op[1]), list(op[2])]))
+                    line, idx = 'ctorPair 0 %s' % tmh.H(op[1] + op[2]), len(st.objs) - 1
+                elif name == 'pair_rpy':
+                    st.objs.append(tm([list(op[1]), list(op[2])], True) if n % 2 == 0 else tm([list(op[1]), list(op[2])], rpy=True))
+                    line, idx = 'ctorPair 1 %s' % tmh.H(op[1] + op[2]), len(st.objs) - 1
+                elif name == 'pair_arr':
+                    st.objs.append(tm([np.array(op[1], dtype=float), np.array(op[2], dtype=float)]))
                     line, idx = 'ctorPair 0 %s' % tmh.H(op[1] + op[2]), len(st.objs) - 1
                 else:
                     line, idx = st.apply(op)
